@@ -41,9 +41,24 @@ def _g_conv_builtin(d, tags):
 
 BUILTIN_CONVERSIONS = {"Number", "isNaN", "Math.max", "Math.abs", "Math.floor", "Error-message"}
 
+def _g_loc_runtime(d, tags):
+    return d.get("c") == "location" and d.get("kind") == "runtime"
+
+
+def _g_eval(d, tags):
+    return d.get("site", "").startswith(("x:eval_", "x:function_"))
+
+
 GUARDS = {
-    "c07.conversion-in-builtin-arguments": _g_conv_builtin,
+    "c07.conversion-in-builtin-arguments": _g_conv_builtin,  # if C07-10 is not merged
+    "c07.runtime-error-location": _g_loc_runtime,  # if C07-09 is not merged
+    "c07.nested-eval": _g_eval,  # if C07-03 / C07-11 are not merged
 }
+
+
+ENGINE_TIME_LIMIT = 0.6  # seconds; the programs finish in milliseconds, a hang is a finding
+RETRY_TIME_LIMIT = 6.0  # second attempt after a TimeLimitError (wall-clock limit, loaded machine)
+EARLY_STOP_FAILURES = 400  # a tree this broken is not explored further (evidence says "truncated")
 
 
 def _layout(i):
@@ -83,13 +98,40 @@ def compare7(exp, got):
     return diff
 
 
+_RETRIES = [2]
+
+
 def run_case(prog, layout=None, step_limit=200000):
     src = c07gen.to_source(prog, layout)
     exp = refjs_c07.run(prog, step_limit=step_limit)
     if "unmodelled" in exp:
         return ("unmodelled", exp["unmodelled"]), exp, None, src
-    got = proglib.run_engine(src)
+    got = proglib.run_engine(src, time_limit=ENGINE_TIME_LIMIT, cpu_seconds=6)
+    if got["result"][:2] == ["exception", "TimeLimitError"] and _RETRIES[0] > 0:
+        # the engine's limit is wall-clock: on a loaded machine a long program may run into the short
+        # limit.  Only a program that still does not finish with a generous limit counts as hanging
+        # (at most two second attempts per batch: a tree where everything hangs stays affordable).
+        _RETRIES[0] -= 1
+        got = proglib.run_engine(src, time_limit=RETRY_TIME_LIMIT, cpu_seconds=15)
     return compare7(exp, got), exp, got, src
+
+
+def _caught_message(sname):
+    """e.message of the site's error as script code sees it in this engine (None when not a string)."""
+    site = c07gen.SITES[sname]
+    if site["e"] is None:
+        return None
+    P = progs
+    body = c07gen.prelude() + site["setup"] + [
+        P.var("q", "qo2", ("qo", P.obj())),
+        P.try_([P.expr(site["e"])], ("e", [P.log("msg", P.dot(P.id_("e"), "message"))]), None),
+        P.expr(P.num(0)),
+    ]
+    got = proglib.run_engine(c07gen.to_source({"body": body}), time_limit=RETRY_TIME_LIMIT, cpu_seconds=15)
+    for t, v in got["log"]:
+        if t == "msg":
+            return v[1] if v[0] == "s" else None
+    return None
 
 
 def _diff_focus(diff, exp):
@@ -111,9 +153,15 @@ def _tagclass(t):
 
 def eval_batch(task):
     out = []
+    _RETRIES[0] = 2
     for i, desc in task:
         p = c07gen.from_desc(desc)
         diff, exp, got, src = run_case(p, _layout(i))
+        if diff is None and p["sub"] == "uncaught" and desc["site"] != "dyn" and exp["result"][0] == "throw" and exp["result"][1].get("internal"):
+            # no model of the wording: the JSError must carry the message script code would have seen
+            m = _caught_message(desc["site"])
+            if m is not None and m not in got["result"][1]["message"]:
+                diff = ("uncaught-message", {"expected": m, "actual": got["result"][1]})
         rec = {"i": i, "desc": desc, "sub": p["sub"], "tags": p["tags"], "id": p["id"]}
         if diff is not None and diff[0] == "unmodelled":
             rec["unmodelled"] = diff[1]
@@ -163,7 +211,7 @@ def discover_task(names):
             if r != ["value", ["s", "function"]]:
                 out[sname] = "no-raise"
                 continue
-        got = proglib.run_engine(c07gen.to_source(_discovery_program(sname)))
+        got = proglib.run_engine(c07gen.to_source(_discovery_program(sname)), time_limit=RETRY_TIME_LIMIT, cpu_seconds=15)
         r = got["result"]
         tags = [t for t, _ in got["log"]]
         if sname.startswith("tcb:"):
@@ -178,6 +226,53 @@ def discover_task(names):
             out[sname] = "escapes"
         else:
             out[sname] = "raises"  # host exception / hang: a finding of the campaigns, not an exclusion
+    return out
+
+
+# ------------------------------------------------------------ raising built-ins (surface)
+def surface_exprs(chk):
+    """Method calls of every built-in function the engine has (checks/c04.py's discovery) on no argument
+    and on each adversarial argument; thorough adds seeded pairs."""
+    from checks import c04
+
+    found, gl = c04.discover_surface()
+    rnd = random.Random(core.shard_seed(chk.seed, ID, "surface"))
+    out = []
+    for rname, rexpr, member in found:
+        if rname == "console" or (member in ("call", "apply", "bind") and rname not in ("function",)):
+            continue  # console.log writes to the terminal
+        vecs = [()] + [(a,) for a in c04.ADV]
+        vecs += [tuple(rnd.choice(c04.ADV) for _ in range(2)) for _ in range(4 if chk.tier == "quick" else 40)]
+        for v in vecs:
+            out.append(("%s.%s" % (rname, member), c04.call_exprs(rexpr, member, v, "method")))
+    for g in gl:
+        for v in [()] + [(a,) for a in c04.ADV]:
+            out.append(("global." + g, "%s(%s)" % (g, ", ".join(v))))
+            out.append(("global.new " + g, "new %s(%s)" % (g, ", ".join(v))))
+    return out
+
+
+def surface_task(items):
+    """-> [(key, expr, outcome)]; outcome: value | caught:<name> | escapes:<class>:<name>:<message> | foreign | hang."""
+    m = engine.load()
+    out = []
+    for key, e in items:
+        ctx = m.Context(time_limit=2.0)
+        src = ("var out; try { %s; out = 'value'; } catch (e) { out = 'caught:' + (e !== null && typeof e === 'object' && typeof e.name === 'string' ? e.name : '?'); } out" % e)
+        try:
+            with pool.cpu_alarm(6):
+                r = ctx.eval(src)
+            r = r if isinstance(r, str) else "value"
+        except pool.HarnessTimeout:
+            r = "hang"
+        except m.JSError as ex:
+            cls = type(ex).__name__
+            r = "limit" if cls in ("TimeLimitError", "MemoryLimitError") else "escapes:%s:%s:%s" % (cls, getattr(ex, "name", ""), str(getattr(ex, "message", ""))[:80])
+        except RecursionError:
+            r = "foreign"
+        except Exception:
+            r = "foreign"  # a host exception: C04's finding
+        out.append((key, e, r))
     return out
 
 
@@ -201,6 +296,20 @@ def _scan_statement_end(src, i):
     return n - 1
 
 
+def _scan_brace(src, i):
+    """Index of the first '{' after i outside string literals."""
+    n = len(src)
+    while i < n:
+        ch = src[i]
+        if ch in "\"'":
+            i = c07gen._skip_string(src, i)
+            continue
+        if ch == "{":
+            return i
+        i += 1
+    return n - 1
+
+
 def _linecol(src, off):
     line = src.count("\n", 0, off) + 1
     col = off - (src.rfind("\n", 0, off) + 1) + 1
@@ -216,6 +325,8 @@ def loc_sources(desc):
     if desc["kind"] == "throw":
         anchor = "throw ev;" if desc["v"] == "var" else None
         at = base.index(anchor) if anchor else base.rindex("throw", 0, base.index('"' + c07gen.LOC_MARK + '"'))
+    elif desc.get("form") == "for-update":
+        at = base.index("for (" + c07gen.LOC_MARK + " = 0")
     else:
         at = base.index(c07gen.LOC_MARK + " = ")
     ls = base.rfind("\n", 0, at) + 1
@@ -223,7 +334,10 @@ def loc_sources(desc):
                 ("stmt+1", "var pad0 = [1, 2, 3];\n" + base, at + len("var pad0 = [1, 2, 3];\n"))]
     out = []
     for name, src, off in variants:
-        end = _scan_statement_end(src, off)
+        if desc.get("form") == "for-update":
+            end = _scan_brace(src, off)  # the position must lie in the loop head, before the body
+        else:
+            end = _scan_statement_end(src, off)
         out.append((name, src, _linecol(src, off), _linecol(src, end)))
     return out
 
@@ -240,7 +354,7 @@ def loc_case(desc):
     fails = []
     seen = {}
     for name, src, start, end in loc_sources(desc):
-        got = proglib.run_engine(src)
+        got = proglib.run_engine(src, time_limit=RETRY_TIME_LIMIT, cpu_seconds=15)
         loc = _loc_of(got)
         pos = None
         if loc is not None and loc[0] == "a" and len(loc[1]) == 2 and all(x[0] == "n" for x in loc[1]):
@@ -283,6 +397,8 @@ def _simpler(d):
 
     if d.get("hn"):
         yield w(hn=None)
+    if d.get("top"):
+        yield w(top=0)
     if d.get("pl", "same") != "same":
         yield w(pl="same")
         if d["pl"] in ("native2", "nativecaller"):
@@ -310,8 +426,8 @@ def _simpler(d):
             chain.append(cur)
             cur = cur.get("in")
         for depth, node in enumerate(chain):
-            for key, val in (("cx", "n"), ("fx", "n")):
-                if node[key] != val:
+            for key, val in (("cx", "n"), ("fx", "n"), ("tx", "n")):
+                if node.get(key, val) != val:
                     yield w(sh=_replace_level(sh, depth, {key: val}))
             if node["k"] == "CF":
                 for k2 in ("C", "F"):
@@ -343,7 +459,7 @@ def _replace_level(sh, depth, upd):
     return n
 
 
-def shrink_desc(desc, kind, li, max_evals=120):
+def shrink_desc(desc, kind, li, max_evals=60):
     evals = 0
     cur = desc
     progress = True
@@ -382,6 +498,8 @@ def _select(chk, disc):
     cases = []
 
     def keep(d):
+        if d["site"] == "dyn":
+            return True
         st = disc.get(d["site"])
         if st == "no-raise":
             chk.excluded["built-in does not raise / call back in this engine: " + d["site"]] += 1
@@ -393,11 +511,11 @@ def _select(chk, disc):
         rnd = random.Random(core.shard_seed(chk.seed, ID, "sites-select"))
         groups = collections.OrderedDict()
         for d in sites:
-            groups.setdefault((d["site"], d["pl"]), []).append(d)
+            groups.setdefault((d["site"], d["pl"], d.get("top", 0)), []).append(d)
         sites = [rnd.choice(ds) for ds in groups.values()]
     cases.extend(sites)
     chk.extra["sites_product"] = len(sites)
-    for name, gen, nquick in (("shapes", c07gen.shapes_product(), 1500), ("shapes2", c07gen.shapes2_product(), 800)):
+    for name, gen, nquick in (("shapes", c07gen.shapes_product(), 1500), ("shapes2", c07gen.shapes2_product(), 800), ("shapes3", c07gen.shapes3_product(), 400)):
         ds = [d for d in gen if keep(d)]
         if quick:
             rnd = random.Random(core.shard_seed(chk.seed, ID, name + "-select"))
@@ -408,6 +526,18 @@ def _select(chk, disc):
         ds = [d for d in gen if keep(d)]
         cases.extend(ds)
         chk.extra[name + "_cases"] = len(ds)
+    # raising built-ins found in this engine: each becomes the throw site of one unwinding recipe and
+    # one error-object recipe (the reference raises an error of the constructor the engine showed)
+    raisers = chk.extra.pop("_raisers", [])
+    rnd = random.Random(core.shard_seed(chk.seed, ID, "raisers-select"))
+    if quick:
+        raisers = rnd.sample(raisers, min(len(raisers), 250))
+    for k, (key, text, ctor) in enumerate(raisers):
+        d = c07gen.random_desc(core.shard_seed(chk.seed, ID, "raiser", k) & 0xFFFFFFFFFFFF, site="dyn")
+        d.update(c="raisers", text=text, ctor=ctor)
+        cases.append(d)
+        cases.append({"c": "errobj", "site": "dyn", "text": text, "ctor": ctor, "pl": ("same", "caller", "native1")[k % 3], "x": c07gen.XCTX[k % 13], "p": k % 3, "nk": c07gen.NATIVE_KINDS[k % 10]})
+    chk.extra["raising_builtins_used"] = len(raisers)
     n_random = 2000 if quick else 100000
     nr = 0
     k = 0
@@ -441,6 +571,8 @@ def _active_guards(chk):
 
 
 def _site_kind(desc):
+    if desc.get("site") == "dyn":
+        return "dyn"
     s = desc.get("site") or ("throw" if desc.get("kind") == "throw" else "?")
     return s.split(":")[0]
 
@@ -472,6 +604,30 @@ def main(chk):
         disc.update(r)
     chk.extra["discovery"] = {"candidates": len(names), "raising": sorted(k for k, v in disc.items() if v != "no-raise"),
                               "not_raising": sorted(k for k, v in disc.items() if v == "no-raise")}
+    # ---- built-ins that raise: every call must be catchable; the raising ones become throw sites
+    try:
+        items = surface_exprs(chk)
+    except Exception as e:  # checks/c04.py changed its interface: the campaign is left out, loudly
+        items = []
+        chk.extra["surface"] = "skipped: %r" % (e,)
+    outcomes = collections.Counter()
+    raisers = collections.OrderedDict()
+    for batch, rb in zip(pool.chunks(items, 150), pool.run(surface_task, pool.chunks(items, 150), timeout=300)):
+        if isinstance(rb, (pool.HANG, pool.CRASH)):
+            outcomes["worker " + repr(rb)] += len(batch)
+            continue
+        for key, e, r in rb:
+            chk.count()
+            kind = r.split(":")[0]
+            outcomes[kind] += 1
+            if kind == "escapes":
+                chk.violation("raisers|uncatchable error|%s" % key, {"expr": e}, "value or an exception the script can catch", r, sub="raisers")
+            elif kind == "caught" and r[7:] in c07gen.ERROR_CTORS:
+                raisers.setdefault((key, r[7:]), (key, e, r[7:]))
+    if items:
+        chk.extra["surface"] = {"calls": len(items), "outcomes": dict(outcomes), "raising (function, constructor) pairs": len(raisers)}
+    chk.classify("sub:raisers-surface", len(items))
+    chk.extra["_raisers"] = list(raisers.values())
     # ---- model campaigns
     todo = []
     for i, desc in _select(chk, disc):
@@ -485,8 +641,20 @@ def main(chk):
             chk.excluded[guards[gname]["id"]] += 1
             continue
         todo.append((i, desc))
-    batches = pool.chunks(todo, 40)
-    res = pool.run(eval_batch, batches, timeout=300)
+    # a seeded tenth first: when that alone fails massively the tree is broken beyond exploring
+    rnd = random.Random(core.shard_seed(chk.seed, ID, "phase"))
+    first = set(rnd.sample(range(len(todo)), max(1, len(todo) // 10)))
+    phase1 = pool.chunks([t for k, t in enumerate(todo) if k in first], 40)
+    phase2 = pool.chunks([t for k, t in enumerate(todo) if k not in first], 40)
+    res1 = pool.run(eval_batch, phase1, timeout=300)
+    bad = sum(1 for rb in res1 if isinstance(rb, (pool.HANG, pool.CRASH)) for _ in range(40)) + sum(
+        1 for rb in res1 if not isinstance(rb, (pool.HANG, pool.CRASH)) for rec in rb if "diff" in rec)
+    if bad >= EARLY_STOP_FAILURES:
+        chk.truncated = True
+        chk.extra["early_stop"] = "%d of the first %d programs failed: the remaining %d were not run" % (bad, sum(map(len, phase1)), sum(map(len, phase2)))
+        phase2 = []
+    batches = phase1 + phase2
+    res = res1 + (pool.run(eval_batch, phase2, timeout=300) if phase2 else [])
     failures = collections.OrderedDict()
     for batch, rb in zip(batches, res):
         if isinstance(rb, (pool.HANG, pool.CRASH)):
@@ -522,7 +690,10 @@ def main(chk):
     for bucket, recs in failures.items():
         if recs[0]["sub"] != "errobj":
             shrink_tasks.append((recs[0]["desc"], recs[0]["diff"][0], recs[0]["i"]))
-    shrunk = pool.run(shrink_task, shrink_tasks[:200], timeout=600) if shrink_tasks else []
+    if chk.truncated:
+        shrink_tasks = shrink_tasks[:10]
+    shrink_tasks = shrink_tasks[:40]
+    shrunk = pool.run(shrink_task, shrink_tasks, timeout=600) if shrink_tasks else []
     small = {}
     for t, r in zip(shrink_tasks, shrunk):
         if isinstance(r, (pool.HANG, pool.CRASH)) or r["diff"] is None or r["diff"][0] == "unmodelled":
@@ -548,6 +719,14 @@ def main(chk):
         locs = throws + rnd.sample(runt, min(len(runt), 160))
     else:
         locs = [d for d in locs if d["kind"] == "throw" or disc.get(d["site"]) != "no-raise"]
+    kept = []
+    for d in locs:
+        gname = next((g for g in guards if GUARDS[g](d, None)), None)
+        if gname is not None:
+            chk.excluded[guards[gname]["id"]] += 1
+        else:
+            kept.append(d)
+    locs = kept
     chk.extra["location_cases"] = len(locs)
     lres = pool.run(loc_batch, pool.chunks(locs, 12), timeout=300)
     for batch, rb in zip(pool.chunks(locs, 12), lres):
@@ -568,6 +747,9 @@ def main(chk):
 # ------------------------------------------------------------------------------- replay
 def replay(rec):
     case = rec["case"]
+    if "expr" in case:  # a built-in call that raised something the script could not catch
+        r = surface_task([("replay", case["expr"])])[0][2]
+        return {"fails": r.startswith("escapes") or r in ("foreign", "hang"), "expected": "value or an exception the script can catch", "actual": r}
     d = case["desc"]
     if d.get("c") == "location":
         fails = loc_case(d)
